@@ -3,9 +3,9 @@
    Objective.param_index_update -- all regenerated from /repo's AST on every run (gen/Refs_NonlinearSolve.v, gen/CFG_drivers.v);
    the adjoint identity over an abstract inner-product structure. *)
 From Coq Require Import Reals List Bool Arith String.
-From OV.model Require Import M_C07_Refs M_C19_CFG.
+From OV.model Require Import M_C07_Refs M_C19_CFG M_C07_Rule.
 From OV.gen Require Import Refs_NonlinearSolve CFG_drivers.
-From OV.proofs Require Import L_C07 L_C19.
+From OV.proofs Require Import L_C07 L_C19 L_C07_Rule.
 Import ListNotations.
 Local Open Scope R_scope.
 
@@ -72,14 +72,116 @@ Proof. exact adjoint_space_same_term. Qed.
 Theorem C07_adjoint_mesh_rebuild :
   afs_mesh_fields_missing = [] /\ afs_mesh_fields_wrong = [] /\ afs_mesh_rebuild_copies_all_fields = true.
 Proof. exact adjoint_mesh_rebuild. Qed.
-(* NOT PROVED: that the jax.vjp / jvp closures of Objective.__init__ and MechanicsInverse are transposes of the exact Jacobians
-   (JAX's autodiff); checked against dense jacfwd on the implementation only. *)
+
+(* ---- composition: the reverse rules, as extracted, return the implicit-function cotangents (model/M_C07_Rule.v: denotation of the
+   descriptors over V = unknowns, P = carrier of a parameter slot, Params = 6 optional slots; self.grad_x, vjp, jvp and the CG sub-solver
+   abstract).  Regenerated on every run: the four slot helpers Objective.vec_jacobian_p<k> and the jitted closures they call
+   (vjp(lambda q: self.grad_x(x, param_index_update(p, k, q)), p[k])[1](vx), called as (x, self.p, vp)), hessian_vec = jvp of grad_x at self.p,
+   grad_x = jit(grad(f, 0)), how each rule re-establishes objective.p BEFORE anything is evaluated on the objective, what the forward rules
+   save, the defvjp registrations. *)
+Theorem C07_rule_tables_resolve : rule_tables_ok = true.
+Proof. exact rule_tables_resolve. Qed.
+
+(* general form: for ANY descriptor that passes revrule_ok, closures that pass closure_ok and a hessian_vec of the recognised shape:
+   the guess gets the zero vector, and position i of the result holding SlotVJP k g (guard satisfied, slot k of the parameters in force
+   present) is a value c with  <v, u> = <dp, c>  for every direction dp and every u with  H u = - d(grad_x)/dp_k dp  (weak form) --
+   i.e. c is v contracted with minus the inverse Hessian times the slot-k parameter Jacobian.  Hypotheses: real inner products; JAX's vjp is
+   the transpose of the derivative; the jvp-of-gradient operator is linear and self-adjoint and CG at infinite radius from zero returns a
+   minimiser of the quadratic model in component 0 for every preconditioner (solve_hyps, at the point of the solve only). *)
+Theorem C07_reverse_rule_is_ift_cotangent :
+  forall (V P : Type) (vadd : V -> V -> V) (vscale : R -> V -> V) (ipV : V -> V -> R) (ipP : P -> P -> R)
+    (gradx : V -> Par P -> V) (vjp_at : (P -> V) -> P -> V -> P) (jvp_at : (V -> V) -> V -> V -> V) (deriv : (P -> V) -> P -> P -> V)
+    (cg : V -> V -> (V -> V) -> (V -> V) -> option R -> V * V) (vzero : V) (precond : V -> V),
+  (forall a b, ipV a b = ipV b a) ->
+  (forall a b c t, ipV a (vadd b (vscale t c)) = ipV a b + t * ipV a c) ->
+  (forall g q w dp, ipP dp (vjp_at g q w) = ipV (deriv g q dp) w) ->
+  forall cls r rk hv expected (e : renv V P),
+  revrule_ok r expected = true -> hv = true -> forallb closure_ok cls = true ->
+  solve_hyps V P vadd vscale ipV gradx jvp_at cg vzero (p_used V P rk e) (e_Uu V P e) (e_v V P e) ->
+  fst (rule_out V P gradx vjp_at jvp_at cg vzero precond cls r rk hv e) = vzero
+  /\ forall i k g, nth_error expected i = Some (SlotVJP k g) -> guard_present V P e g = true ->
+     forall q0, nth k (p_used V P rk e) None = Some q0 -> find_closure cls k <> None ->
+     exists c, nth_error (snd (rule_out V P gradx vjp_at jvp_at cg vzero precond cls r rk hv e)) i = Some (CotVal P c)
+               /\ forall dp u, ift_tangent V P ipV gradx jvp_at deriv (p_used V P rk e) (e_Uu V P e) k q0 dp u -> ipV (e_v V P e) u = ipP dp c.
+Proof. exact rule_slot_is_ift_cotangent. Qed.
+
+(* nonlinear_solve_with_state_b as extracted: WHATEVER objective.p holds when the rule runs (e_pcur is not constrained: in a reverse sweep
+   over a load history it is another step's parameters), position k in {0,1,2,4} of the returned Params is the implicit-function cotangent of
+   slot k at the SAVED parameters if that slot is present and None otherwise; position 3 is None; the guess gets the zero vector.
+   (Fails by computation if objective.p is not restored first -- seeded change C07-1 --, if a slot helper differentiates another slot, ...) *)
+Theorem C07_with_state_rule_ift :
+  forall (V P : Type) (vadd : V -> V -> V) (vscale : R -> V -> V) (ipV : V -> V -> R) (ipP : P -> P -> R)
+    (gradx : V -> Par P -> V) (vjp_at : (P -> V) -> P -> V -> P) (jvp_at : (V -> V) -> V -> V -> V) (deriv : (P -> V) -> P -> P -> V)
+    (cg : V -> V -> (V -> V) -> (V -> V) -> option R -> V * V) (vzero : V) (precond : V -> V),
+  (forall a b, ipV a b = ipV b a) ->
+  (forall a b c t, ipV a (vadd b (vscale t c)) = ipV a b + t * ipV a c) ->
+  (forall g q w dp, ipP dp (vjp_at g q w) = ipV (deriv g q dp) w) ->
+  forall e : renv V P,
+  let o := rule_out V P gradx vjp_at jvp_at cg vzero precond objective_vjp_closures rule_nonlinear_solve_with_state_b
+             restore_nonlinear_solve_with_state_b objective_hessian_vec_is_jvp_of_grad_x_at_self_p e in
+  solve_hyps V P vadd vscale ipV gradx jvp_at cg vzero (e_psaved V P e) (e_Uu V P e) (e_v V P e) ->
+  fst o = vzero
+  /\ nth_error (snd o) 3 = Some (CotNone P)
+  /\ List.length (snd o) = 5%nat
+  /\ forall k, In k [0; 1; 2; 4]%nat ->
+       match nth k (e_psaved V P e) None with
+       | None => nth_error (snd o) k = Some (CotNone P)
+       | Some q0 => exists c, nth_error (snd o) k = Some (CotVal P c)
+                     /\ forall dp u, ift_tangent V P ipV gradx jvp_at deriv (e_psaved V P e) (e_Uu V P e) k q0 dp u -> ipV (e_v V P e) u = ipP dp c
+       end.
+Proof. exact with_state_rule_ift. Qed.
+
+(* nonlinear_solve_b as extracted re-establishes slot 2 of objective.p only: if the other slots are what they were when the forward pass ran
+   (pobj), the single returned cotangent is the implicit-function cotangent of the design slot at the forward parameters *)
+Theorem C07_design_rule_ift :
+  forall (V P : Type) (vadd : V -> V -> V) (vscale : R -> V -> V) (ipV : V -> V -> R) (ipP : P -> P -> R)
+    (gradx : V -> Par P -> V) (vjp_at : (P -> V) -> P -> V -> P) (jvp_at : (V -> V) -> V -> V -> V) (deriv : (P -> V) -> P -> P -> V)
+    (cg : V -> V -> (V -> V) -> (V -> V) -> option R -> V * V) (vzero : V) (precond : V -> V),
+  (forall a b, ipV a b = ipV b a) ->
+  (forall a b c t, ipV a (vadd b (vscale t c)) = ipV a b + t * ipV a c) ->
+  (forall g q w dp, ipP dp (vjp_at g q w) = ipV (deriv g q dp) w) ->
+  forall (e : renv V P) (pobj : Par P),
+  let o := rule_out V P gradx vjp_at jvp_at cg vzero precond objective_vjp_closures rule_nonlinear_solve_b restore_nonlinear_solve_b
+             objective_hessian_vec_is_jvp_of_grad_x_at_self_p e in
+  let pfwd := upd P pobj 2 (e_dsaved V P e) in
+  List.length pobj = 6%nat ->
+  (forall j, (j < 6)%nat -> j <> 2%nat -> nth j (e_pcur V P e) None = nth j pobj None) ->
+  solve_hyps V P vadd vscale ipV gradx jvp_at cg vzero pfwd (e_Uu V P e) (e_v V P e) ->
+  fst o = vzero
+  /\ exists c, snd o = [CotVal P c]
+       /\ forall dp u, ift_tangent V P ipV gradx jvp_at deriv pfwd (e_Uu V P e) 2 (e_dsaved V P e) dp u -> ipV (e_v V P e) u = ipP dp c.
+Proof. exact design_rule_ift. Qed.
+
+(* the slot helpers linearise at the objective's actual parameters: putting back into slot k the value it holds changes nothing
+   (on the regenerated param_index_update table), so d/dq grad_x(x, update(p, k, q)) at q = p[k] is the slot-k parameter Jacobian at p *)
+Theorem C07_closure_linearises_at_p : forall (P : Type) (p : Par P) k q0,
+  List.length p = 6%nat -> (k < 6)%nat -> nth k p None = Some q0 -> upd P p k q0 = p.
+Proof. exact upd_same. Qed.
+
+(* NOT PROVED (hypotheses of the theorems above, checked on the implementation by the conclusion streams): that jax.vjp returns the transpose of
+   the derivative and jax.jvp of a gradient is linear and self-adjoint (JAX's autodiff; against dense jacfwd / hessian); that the CG
+   sub-solver at infinite radius returns a minimiser for every SPD preconditioner (exact-arithmetic CG; the streams use exact and
+   deliberately poor preconditioners and bound the error by the CG tolerance); the existence and differentiability of the solution map
+   (the implicit function theorem itself: u is DEFINED by H u = -J dp).  The vjp wrappers of MechanicsInverse are not modelled
+   (checked against dense jacfwd on the implementation only). *)
 
 Example C07_nonvacuous : forall h j v dp : R, 0 < h ->
   (forall z, qmodel R Rmult (fun x => h * x) v (- v / h) <= qmodel R Rmult (fun x => h * x) v z)
   /\ (forall w, (h * (- (j * dp) / h)) * w = - ((j * dp) * w)).
 Proof. exact adjoint_instance. Qed.
 
+(* the hypotheses of the composition theorems are jointly satisfiable with a non-trivial Hessian h > 0 and parameter Jacobian j
+   (V = P = R, gradient h x + j (p0 + p1 + p2 + p4)), and an implicit-function tangent exists there *)
+Example C07_rule_nonvacuous : forall h j : R, 0 < h ->
+  ((forall a b : R, a * b = b * a)
+   /\ (forall a b c t : R, a * (b + t * c) = a * b + t * (a * c))
+   /\ (forall g q w dp, dp * i_vjp g q w = i_deriv g q dp * w)
+   /\ forall p x v, solve_hyps R R Rplus Rmult Rmult (i_gradx h j) i_jvp i_cg 0 p x v)
+  /\ forall p x k q0 dp, List.length p = 6%nat -> In k [0; 1; 2; 4]%nat ->
+       ift_tangent R R Rmult (i_gradx h j) i_jvp i_deriv p x k q0 dp (- (j * dp) / h).
+Proof. intros h j Hh. split; [exact (instance_hyps h j Hh)|intros; apply instance_tangent; assumption]. Qed.
+
+Print Assumptions C07_with_state_rule_ift.
 Print Assumptions C07_adjoint_identity.
 Print Assumptions C07_refs_resolve.
 Print Assumptions C07_reverse_rule_slots.
